@@ -644,7 +644,7 @@ pub fn run(ctx: &Ctx) -> i32 {
     run_cases(ctx, &mut rep, "sampled", ctx.cases(150_000, 5_000_000), case);
     // the real daemon between generated masters: its port states and parentDS against the reference state decision
     let workers = (ctx.threads as u64 / 2).clamp(2, 8);
-    let sum = crate::daemon::run_part(ctx, &mut rep, ctx.cases(3 * workers, 40 * workers), workers);
+    let sum = crate::daemon::run_part(ctx, &mut rep, ctx.cases(5 * workers, 40 * workers), workers);
     if let Some(why) = &sum.skipped {
         println!("note: end-to-end daemon part skipped ({}); the other parts are unaffected", why);
     }
